@@ -13,7 +13,8 @@ Clauses of the property and where they are:
                                                                   `correctAll_spec`, `gnSystem_spec`, `lmSystem_spec`
 * weight block-diagonal expansion for every residual rank /
   documented weight shape                                       — `weight_blocks_documented`, `weight_blocks_documented_d1`,
-                                                                  `weight_index_broadcast`, `weight_expand_general`, `weight_expand`
+                                                                  `weight_index_broadcast`, `weight_expand_general`, `weight_expand`,
+                                                                  `gn_rhs_item`, `gn_A_item`
 * GN: least-squares solution of `W J δ = -W R`, minimum norm
   with the default (pseudo-inverse) solver                      — `gn_system`, `gn_normal`, `gn_normal_iff`, `gn_minnorm`, `gn_pinv`
 * LM: `A_0`, `A_k = A_(k-1) + λ diag A_(k-1)`, rhs `-JᵀWR`      — `lm_A0_diag`, `lm_A0_offdiag`, `lm_Ak_succ`, `lm_Ak_diag`,
@@ -148,6 +149,71 @@ theorem weight_expand_d1 (pre suf : List Nat) (hsuf : 0 < prod suf) (wdata v : N
     (by simp) (by simpa [hcnt] using ht) (by simp [hh])
   simp only [List.getD_cons_zero, List.map_cons, List.map_nil, offset, Nat.zero_add, hh, hnb, hblk] at this
   simpa using this
+
+/-- **The weighted GN right-hand side, item by item.**  For any number of residuals whose weights have square blocks
+matching the residuals' sizes: entry `(t, a)` of residual `i` of `b = -(block_diag W) · cat(R')` is
+`-Σ_b W_i[t % nb_i][a, b] · R'_i[t, b]` — residual `i`, item `t` only, weighted by its own (broadcast) matrix. -/
+theorem gn_rhs_item (rs : List (Res ℝ)) (bs : List (WBlocks ℝ)) (hsq : ∀ B ∈ bs, B.h = B.w ∧ 0 < B.h)
+    (hshape : bs.map (·.cols) = rs.map (·.rows)) (i t a : Nat) (hi : i < bs.length)
+    (ht : t < (bs.getD i default).cnt) (ha : a < (bs.getD i default).h) :
+    gnb (totalRows rs) (some (blockDiag bs)) (catR rs)
+        (offset (bs.map (·.rows)) i + (t * (bs.getD i default).h + a))
+      = -∑ b ∈ range (bs.getD i default).h,
+          (bs.getD i default).blk (t % (bs.getD i default).nb) a b
+            * (rs.getD i default).R (t * (bs.getD i default).h + b) := by
+  have hlen : rs.length = bs.length := by
+    have := congrArg List.length hshape; simpa using this.symm
+  have hm : totalRows rs = wCols bs := by unfold totalRows wCols; rw [hshape]
+  have hmem : bs.getD i default ∈ bs := by
+    simp only [List.getD_eq_getElem?_getD, List.getElem?_eq_getElem hi, Option.getD_some]; exact List.getElem_mem hi
+  have hB := hsq _ hmem
+  simp only [gnb, sumN_eq, hm]
+  have e : ∀ s ∈ range (wCols bs), -blockDiag bs (offset (bs.map (·.rows)) i + (t * (bs.getD i default).h + a)) s * catR rs s
+      = -(blockDiag bs (offset (bs.map (·.rows)) i + (t * (bs.getD i default).h + a)) s * catR rs s) := by
+    intro s _; ring
+  rw [sum_congr rfl e, sum_neg_distrib, blockDiag_row_dot bs hsq (catR rs) i t a hi ht ha]
+  congr 1
+  apply sum_congr rfl
+  intro b hb
+  have hb := mem_range.mp hb
+  rw [hshape, catR_at rs i _ (by omega)]
+  have hc : (rs.getD i default).rows = (bs.getD i default).cols := by
+    have h1 := rows_getD rs i (by omega)
+    rw [← hshape] at h1
+    rw [← h1]
+    simp [List.getD_eq_getElem?_getD, List.getElem?_map, List.getElem?_eq_getElem hi]
+  rw [hc, WBlocks.cols, ← hB.1]
+  exact row_lt_rows _ _ _ _ ht hb
+
+/-- **The weighted GN matrix, item by item**: row `(t, a)` of residual `i` of `A = (block_diag W) · cat(J')` is
+`Σ_b W_i[t % nb_i][a, b] · J'_i[(t, b), ·]`. -/
+theorem gn_A_item (rs : List (Res ℝ)) (bs : List (WBlocks ℝ)) (hsq : ∀ B ∈ bs, B.h = B.w ∧ 0 < B.h)
+    (hshape : bs.map (·.cols) = rs.map (·.rows)) (i t a c : Nat) (hi : i < bs.length)
+    (ht : t < (bs.getD i default).cnt) (ha : a < (bs.getD i default).h) :
+    gnA (totalRows rs) (some (blockDiag bs)) (catJ rs)
+        (offset (bs.map (·.rows)) i + (t * (bs.getD i default).h + a)) c
+      = ∑ b ∈ range (bs.getD i default).h,
+          (bs.getD i default).blk (t % (bs.getD i default).nb) a b
+            * (rs.getD i default).J (t * (bs.getD i default).h + b) c := by
+  have hlen : rs.length = bs.length := by
+    have := congrArg List.length hshape; simpa using this.symm
+  have hm : totalRows rs = wCols bs := by unfold totalRows wCols; rw [hshape]
+  have hmem : bs.getD i default ∈ bs := by
+    simp only [List.getD_eq_getElem?_getD, List.getElem?_eq_getElem hi, Option.getD_some]; exact List.getElem_mem hi
+  have hB := hsq _ hmem
+  simp only [gnA, sumN_eq, hm]
+  rw [blockDiag_row_dot bs hsq (fun s => catJ rs s c) i t a hi ht ha]
+  apply sum_congr rfl
+  intro b hb
+  have hb := mem_range.mp hb
+  rw [hshape, catJ_at rs i _ c (by omega)]
+  have hc : (rs.getD i default).rows = (bs.getD i default).cols := by
+    have h1 := rows_getD rs i (by omega)
+    rw [← hshape] at h1
+    rw [← h1]
+    simp [List.getD_eq_getElem?_getD, List.getElem?_map, List.getElem?_eq_getElem hi]
+  rw [hc, WBlocks.cols, ← hB.1]
+  exact row_lt_rows _ _ _ _ ht hb
 
 /-! ## Gauss–Newton -/
 
